@@ -57,6 +57,8 @@ def plan(tier, seed):
 		if tier != 'quick' or c['payload'] != 'medium':
 			for death in ('term', 'int'):
 				tasks.append(('t_crash', dict(cfg=c, level='L1', death=death)))
+	for comp in ('none', 'gzip'):
+		tasks.append(('t_source_faults', dict(comp=comp)))
 	return tasks
 
 
@@ -122,8 +124,53 @@ def cli_expected(paths):
 	return ks, arrs, [os.path.basename(p)[:-6] for p in paths], SignaturesMeta()
 
 
+FAULT_KINDS = ['IndexError', 'KeyError', 'OSError', 'ValueError', 'MemoryError', 'StopIteration', 'KeyboardInterrupt', 'RuntimeError']
+
+
+def lazy_source(fault=None):
+	"""A signature collection fetched one signature at a time (sizes known up front), as a file- or database-backed source would be; with
+	fault = (exception name, i) fetching signature i raises."""
+	from gambit.kmers import KmerSpec
+	from gambit.sigs.base import ReferenceSignatures, SignaturesMeta
+	import builtins
+	ks = KmerSpec(11, 'ATGAC')
+	arrs = [np.arange(3 + 2 * i, 3 + 2 * i + 40 * (i + 1), 2, dtype='u4') for i in range(6)]
+	ids = [f'lazy{i}' for i in range(6)]
+	meta = SignaturesMeta(id='verif/lazy', id_attr='key')
+
+	class Lazy(ReferenceSignatures):
+		def __init__(self):
+			self.kmerspec, self.ids, self.meta, self.dtype = ks, ids, meta, np.dtype('u4')
+
+		def __len__(self):
+			return len(arrs)
+
+		def sizes(self):
+			return np.array([len(a) for a in arrs])
+
+		def sizeof(self, i):
+			return len(arrs[i])
+
+		def __getitem__(self, i):
+			if not isinstance(i, (int, np.integer)):
+				raise TypeError('one signature at a time')
+			if i < 0 or i >= len(arrs):
+				raise IndexError(i)
+			if fault is not None and int(i) == fault[1]:
+				raise getattr(builtins, fault[0])(f'backing store failed for signature {i}')
+			return arrs[int(i)]
+	return Lazy(), ks, arrs, ids, meta
+
+
 def child_main(argv):
 	cfg = json.loads(argv[0])
+	if cfg['path'] == 'lazy-source':
+		from gambit.sigs.base import dump_signatures
+		f = cfg.get('fault')
+		obj = lazy_source(tuple(f) if f else None)[0]
+		dump_signatures(argv[1], obj, **write_kw(cfg))       # an exception of the source ends the process with a traceback
+		print('DONE')
+		return
 	path = argv[1]
 	level = argv[2]
 	n = int(argv[3])
@@ -318,6 +365,49 @@ def t_crash(cfg, level, death='kill'):
 	return sh
 
 
+def t_source_faults(comp, only=None):
+	"""The writer's data source fails while signature i is fetched - every i, eight exception types (among them the ones iteration protocols
+	treat as 'end of data').  Whatever the writer process then does (die with a traceback, or carry on), the file it leaves must be refused,
+	or hold exactly the collection that was being written."""
+	sh = Shard()
+	cfg0 = dict(path='lazy-source', payload='six', comp=comp)
+	_, ks, arrs, ids, meta = lazy_source()
+	with fixtures.workdir('c19s') as d:
+		p0 = os.path.join(d, 'ok.gs')
+		r = run_child(cfg0, p0, 'none', -1)
+		v, det = judge(p0, (ks, arrs, ids, meta))
+		sh.evals += 1
+		if r.returncode != 0 or v != 'equal':
+			sh.violation('complete-file-not-equal', dict(cfg=cfg0, level='source', point='complete'), 'equal', f'{v}: {det} {r.stderr[-300:]}')
+			return sh
+		for kind in FAULT_KINDS:
+			for i in range(len(arrs)):
+				if only is not None and only != [kind, i]:
+					continue
+				cfg = dict(cfg0, fault=[kind, i])
+				p = os.path.join(d, f'f-{kind}-{i}.gs')
+				r = run_child(cfg, p, 'none', -1)
+				v, det = judge(p, (ks, arrs, ids, meta))
+				size = os.path.getsize(p) if os.path.exists(p) else -1
+				sh.evals += 1
+				case = dict(cfg=cfg, level='source', point=i)
+				if v == 'DIFFERENT':
+					sh.violation('partial-file-loads-as-different-collection', case, 'rejected or equal', dict(loaded=det, writer_exit=r.returncode))
+					continue
+				if v == 'equal':
+					raise HarnessError(f'fault {kind}@{i} was not injected')
+				if size > 0:
+					sh.nontrivial += 1
+				sh.count('source_fault_points')
+				sh.count('source_fault_writer_' + ('died' if r.returncode != 0 else 'returned_normally'))
+				sh.outcome(['source', kind, v, det])
+				if os.path.exists(p):
+					os.unlink(p)
+	sh.extra = dict(cfg=cfg0, level='source', death='source-exception', points=len(FAULT_KINDS) * len(arrs), verdicts=[])
+	sh.sample(dict(family='source-faults', comp=comp, kinds=FAULT_KINDS, signatures=len(arrs)))
+	return sh
+
+
 def finalize(agg, tier):
 	agg.require('nonempty_file_rejected', 10)
 	agg.require('points_equal', 4)
@@ -329,6 +419,8 @@ def finalize(agg, tier):
 def replay(case, kind=None):
 	sh = Shard()
 	cfg, level, n = case['cfg'], case['level'], case['point']
+	if cfg['path'] == 'lazy-source':
+		return t_source_faults(cfg['comp'], only=cfg.get('fault')).violations[:1]
 	shim = os.path.join(build.NBUILD, 'libkillwrite.so')
 	with fixtures.workdir('c19r') as d:
 		if cfg['path'] == 'cli-create':
